@@ -20,7 +20,6 @@ def exSplit : Entry FText :=
 
 example : validate exCfg2 allOn exSplit = [] := by decide
 example : exCfg2.namespaces ≠ [] := by decide
-example : extrasOk exCfg2 = true := by decide
 example : multOk (some 3) := by intro m h; cases h; decide
 example : noUnroutable exSplit = true := by decide
 example : dimKeysDisjoint exCfg2 exSplit = true := by decide
@@ -35,7 +34,12 @@ example : runEmf exCfg2 allOn textOps textTxt (some 3) 0 exSplit =
 example : ((emit exCfg2 textOps (some 3) exSplit).map fun r =>
       (readLine (lineOf textTxt 2 0 r)).map fun t => t == recordJson textTxt 2 0 r) =
     [some true, some true, some true, some true] := by decide +kernel
-example : agree exCfg2 allOn textOps textTxt (some 3) 0 exSplit = true := by decide +kernel
+
+/-- an extra directive with `Unit::None` and high resolution (serde prints `"Unit":"None"`) -/
+def exCfg3 : Config := { exCfg2 with extra := [⟨bytes! "X", [[bytes! "E"]], [⟨bytes! "EM", none, true⟩]⟩] }
+
+example : runEmf exCfg3 allOn textOps textTxt none 7 exSplit =
+    (.ok, ((emit exCfg3 textOps none exSplit).map (lineOf textTxt 2 7)).flatten) := by decide +kernel
 
 /-! ### the dtoa law is satisfiable: numbers are naturals, printed as `<digits>.0` -/
 
